@@ -109,6 +109,13 @@ func HTMLDoc(r *rand.Rand, o HTMLOpts) (doc string, toks []XTok) {
 				t += " "
 			}
 		}
+		if tmpl && r.Intn(10) == 0 {
+			// a '<' that starts no tag directly in front of a template region: the region is a token of its own
+			t += "<"
+			emit(XTok{Type: "Text", Data: t, Text: t})
+			emit(XTok{Type: "Template", Data: o.tmplRegion(r), Tmpl: true})
+			return
+		}
 		emit(XTok{Type: "Text", Data: t, Text: t})
 	}
 	attrs := func(n int) {
@@ -386,7 +393,7 @@ func HTMLDoc(r *rand.Rand, o HTMLOpts) (doc string, toks []XTok) {
 		}
 	}
 	if r.Intn(3) == 0 {
-		body := Pick(r, []string{" html", "html", " HTML PUBLIC \"-//W3C//DTD HTML 4.01//EN\"", "", " html SYSTEM 'about:legacy-compat'"})
+		body := Pick(r, []string{" html", "html", " HTML PUBLIC \"-//W3C//DTD HTML 4.01//EN\"", "", " html SYSTEM 'about:legacy-compat'", " book SYSTEM \"O'Reilly.dtd\"", " x PUBLIC 'say \"hi' \"it's\"", " html SYSTEM \"'\""})
 		emit(XTok{Type: "Doctype", Data: "<!" + randCase(r, "doctype") + body + ">", Text: body})
 	}
 	content(0)
